@@ -127,7 +127,7 @@ func (r *Run) fieldSinks(fields map[*types.Var]string) (map[string][]sink, int) 
 		if t, ok := tbs[f]; ok {
 			return t
 		}
-		t := core.NewTermBuilder(r.P, f)
+		t := r.E.Facts(f, core.Ctx{}).TB
 		tbs[f] = t
 		return t
 	}
